@@ -328,8 +328,10 @@ def receiver_model(h, r):
         how = r["how"][j % len(r["how"])]
         if how == "heads":
             refs[b"refs/heads/r%d" % j] = h.commit_ids[t]
-        elif how == "same" and branch_names:
+        elif how == "same" and branch_names and branch_names[j % len(branch_names)] not in refs:
             refs[branch_names[j % len(branch_names)]] = h.commit_ids[t]
+        elif how == "same":
+            refs[b"refs/heads/r%d" % j] = h.commit_ids[t]
         elif how == "tags":
             refs[b"refs/tags/rl%d" % j] = h.commit_ids[t]
         else:
@@ -491,7 +493,10 @@ def judge_pack(ctx, where, pack, u, h, want_tips, adv_values, include_tag, check
         followed = tag_follow_allowance(h, want_closure | (have_ids if follow_present and have_ids else set()), adv_values)
         allowed |= followed
         if follow_present:
-            # C git asks for the tags it decided to follow in a second connection: there they are ordinary wants
+            # C git turns every tag (annotated or lightweight) whose target it has or is getting into an ordinary want,
+            # in the same or in a second connection
+            present = want_closure | (have_ids or set())
+            followed |= {v for v in adv_values if v in h.objs and h.peel(v) in present}
             allowed |= u.closure(followed)
     # (a) nothing unreachable from the refs the sender advertises -- whatever the client asked for
     adv_closure = u.closure([v for v in adv_values if v in u.objs])
@@ -573,6 +578,11 @@ def _one_conv(ctx, env, h, u, spath, port, case, conv, check):
     for pos, k in conv.get("absent_haves", []):
         sent_haves.insert(pos % (len(sent_haves) + 1), G.hexid(b"commit", b"nope %d" % k))
     virtual = h.closure(have_ids_list)
+    # honest non-commit haves: trees / blobs / tags the virtual receiver really holds (a peer may name any object it has)
+    if virtual:
+        vs = sorted(virtual)
+        for pos, k in conv.get("object_haves", []):
+            sent_haves.insert(pos % (len(sent_haves) + 1), vs[k % len(vs)])
     caps = list(conv["caps"])
     hostile = [w for w in wants if w not in adv_values]
     one = dict(hist=case["hist"], sender=case["sender"], convs=[conv])
@@ -605,6 +615,8 @@ def _one_conv(ctx, env, h, u, spath, port, case, conv, check):
         labels.add("raw:no-done-line")
     if conv.get("absent_haves"):
         labels.add("raw:absent-haves")
+    if conv.get("object_haves") and virtual:
+        labels.add("raw:non-commit-haves")
     feats = features(h, u, virtual, [w for w in wants if w in adv_values])
     if hostile:
         kinds = set()
@@ -791,6 +803,10 @@ def _one_step(ctx, env, st, case, n, step, check):
     tips = []
     t_err = None
     try:
+        if case["sender"]["layout"] == "gitbitmap2" and tr == "cgith" and op != "push":
+            # every transfer out of this layout fails inside dulwich's server (notes/C05-findings.md, failure 1); over smart
+            # HTTP the C git client then waits for its own timeout instead of seeing an error: not worth 15 s per case
+            raise _XferFailed("skipped-known-server-error-makes-git-hang")
         with _watchdog(15):
             if op == "clone":
                 rpath = os.path.join(st.root, "clone%d" % n)
@@ -1175,6 +1191,7 @@ def _strategies():
             "have_tips": draw(st.lists(st.integers(0, 8), min_size=0 if draw(st.integers(0, 9)) < 2 else 1, max_size=3, unique=True)),
             "order": draw(st.sampled_from([0, 0, 1, 2, 3, 4])),
             "absent_haves": draw(st.lists(st.tuples(st.integers(0, 9), st.integers(0, 5)), max_size=2)),
+            "object_haves": draw(st.lists(st.tuples(st.integers(0, 9), st.integers(0, 40)), max_size=2)) if draw(st.integers(0, 9)) < 3 else [],
             "caps": caps,
             "done": draw(st.integers(0, 19)) > 0,
             "flush_every": draw(st.sampled_from([0, 0, 1, 2, 3])),
@@ -1333,6 +1350,110 @@ def _part(ctx, item):
         close_env()
 
 
+# ---------------------------------------------------------------------------
+# bounded greedy minimisation of recorded failures (plain re-execution, no Hypothesis)
+
+
+def _candidates(check, case):
+    """Simpler variants of a case, most aggressive first.  All variants stay inside the generators' domain."""
+    import copy
+
+    def variant(path, value):
+        c = copy.deepcopy(case)
+        d = c
+        for k in path[:-1]:
+            d = d[k]
+        d[path[-1]] = value
+        return c
+
+    hist = case["hist"]
+    commits = hist["commits"]
+    if len(commits) > 1:
+        used = len(commits) - 1
+        if not any(used in c["parents"] for c in commits):
+            yield variant(("hist", "commits"), commits[:-1])
+    tags = hist["tags"]
+    if tags:
+        last = len(tags) - 1
+        if not any(t["target"] == ("tag", last) for t in tags):
+            c = variant(("hist", "tags"), tags[:-1])
+            c["hist"]["refs"] = [r for r in c["hist"]["refs"] if tuple(r[1]) != ("tag", last)]
+            if c["hist"]["refs"]:
+                yield c
+    refs = hist["refs"]
+    for i in range(len(refs) - 1, 0, -1):
+        yield variant(("hist", "refs"), refs[:i] + refs[i + 1:])
+    for side in ("sender",) + (("recv",) if check == "xfer" else ()):
+        for key, val in (("layout", "loose"), ("cgraph", False), ("packed_refs", False)):
+            if case[side].get(key, val) != val:
+                yield variant((side, key), val)
+    if check == "xfer":
+        if len(case["steps"]) > 1:
+            yield variant(("steps",), case["steps"][1:])
+        if case["recv"].get("own"):
+            yield variant(("recv", "own"), 0)
+        if case["recv"].get("tags"):
+            yield variant(("recv", "tags"), [])
+        if len(case["recv"]["tips"]) > 1:
+            for i in range(len(case["recv"]["tips"])):
+                yield variant(("recv", "tips"), case["recv"]["tips"][:i] + case["recv"]["tips"][i + 1:])
+        last = case["steps"][-1]
+        if isinstance(last.get("wants"), list) and len(last["wants"]) > 1:
+            for i in range(len(last["wants"])):
+                yield variant(("steps", len(case["steps"]) - 1, "wants"), last["wants"][:i] + last["wants"][i + 1:])
+        for k, v in list(last.get("o", {}).items()):
+            if k != "depth" and v not in (None, False, 2) :
+                o2 = {kk: vv for kk, vv in last["o"].items() if kk != k}
+                yield variant(("steps", len(case["steps"]) - 1, "o"), o2)
+    else:
+        conv = case["convs"][0]
+        for key, val in (("absent_haves", []), ("object_haves", []), ("flush_every", 0), ("order", 0)):
+            if conv.get(key, val) != val:
+                yield variant(("convs", 0, key), val)
+        for key in ("wants", "have_tips"):
+            if len(conv[key]) > 1:
+                for i in range(len(conv[key])):
+                    yield variant(("convs", 0, key), conv[key][:i] + conv[key][i + 1:])
+        for cap in conv["caps"][3:]:
+            yield variant(("convs", 0, "caps"), [c for c in conv["caps"] if c != cap])
+    for i, c in enumerate(commits):
+        keep = [op for op in c["ops"] if op[0] == "base"]
+        if len(keep) != len(c["ops"]):
+            yield variant(("hist", "commits", i, "ops"), keep)
+    for i, c in enumerate(commits):
+        if len(c["parents"]) > 1:
+            yield variant(("hist", "commits", i, "parents"), c["parents"][:-1])
+    if [c["t"] for c in commits] != [10 * i for i in range(len(commits))]:
+        c = variant(("hist", "commits"), [dict(cm, t=10 * i) for i, cm in enumerate(commits)])
+        yield c
+
+
+def _minimise(ctx, bucket, budget):
+    from ..core import Ctx
+
+    v = ctx.violations[bucket]
+    check, best = v["check"], v["case"]
+    improved = True
+    while improved and budget > 0:
+        improved = False
+        for cand in _candidates(check, best):
+            if budget <= 0:
+                break
+            budget -= 1
+            sub = Ctx(ctx.prop, ctx.tier, ctx.seed)
+            sub._scratch, sub._scratch_pid = ctx.scratch, os.getpid()
+            try:
+                (exec_raw if check == "raw" else exec_xfer)(sub, cand)
+            except Exception:
+                continue  # a variant the harness cannot build is simply not a candidate
+            if bucket in sub.violations:
+                best = sub.violations[bucket]["case"]
+                v.update(case=best, message=sub.violations[bucket]["message"])
+                improved = True
+                break
+    ctx.label("minimised-buckets")
+
+
 def run(ctx):
     global _T0
     _T0 = time.monotonic()
@@ -1344,6 +1465,14 @@ def run(ctx):
     n_raw = ctx.scale(50, 800)
     n_xfer = ctx.scale(100, 1800)
     ctx.parallel(_part, [(n_xfer, n_raw)] * 16)
+    if ctx.violations:
+        try:
+            for n, bucket in enumerate(sorted(ctx.violations)):
+                if n >= ctx.scale(3, 10) or time.monotonic() - _T0 > ctx.scale(45, 27 * 60):
+                    break
+                _minimise(ctx, bucket, ctx.scale(25, 200))
+        finally:
+            close_env()
 
 
 def replay(ctx, check, case):
